@@ -5,9 +5,11 @@
   states and inputs.  A semantic change of one of these functions changes the generated definition and breaks its theorem.
 -/
 import CxVerif.Proofs.GlueRest
+import CxVerif.Proofs.GlueRestMuladd
 import CxVerif.Impl.HashLen
 import CxVerif.Driver.KTie
 import CxVerif.Proofs.ConstantTime
+import CxVerif.Proofs.Argon2Segment
 import CxVerif.Props.C02.GlueTieSponge
 namespace Cx.Props.C20.GlueTieRest
 open Cx Cx.Extracted.GlueRest Cx.Proofs.GlueRest
@@ -285,6 +287,20 @@ theorem bits_src_eq_model (s : Scalar) : bits_src s = some (bits s) := sc32_bits
 theorem nibbles_src_eq_model (s : Scalar) : nibbles_src s = some (nibbles s) := sc32_nibbles_src_eq_model s
 end Scalar32
 
+namespace Scalar32Muladd
+open Cx.Impl.Scalar32 Cx.Extracted.GlueRest.Scalar32Muladd
+/-- `scalar32::muladd` (sc_muladd): the three generated stages (loads + column sums, rounded carries, reduction by L + output bytes —
+    a partition of the statements of the function, re-checked on every run) compose to the hand model, for ALL inputs, INCLUDING where an
+    overflow-checked build would panic (`none`): about 1000 checked i64 operations compared one by one.  (`Props/C17/Sc32.lean` proves
+    that model equal to `(a·b + c) mod L` with no overflow.) -/
+theorem muladd_src_eq_model (a b c : Scalar) : muladd_src a b c = muladd a b c := Cx.Proofs.GlueRestMuladd.muladd_src_eq a b c
+/-- the reduction tail of `muladd` is the reduction of `reduce_from_wide_bytes` (`reduce_limbs`) followed by the packing -/
+theorem muladd_tail_src_eq_model (s0 s1 s2 s3 s4 s5 s6 s7 s8 s9 s10 s11 s12 s13 s14 s15 s16 s17 s18 s19 s20 s21 s22 s23 : Int) :
+    muladd_tail_src s0 s1 s2 s3 s4 s5 s6 s7 s8 s9 s10 s11 s12 s13 s14 s15 s16 s17 s18 s19 s20 s21 s22 s23 =
+      (reduce_limbs s0 s1 s2 s3 s4 s5 s6 s7 s8 s9 s10 s11 s12 s13 s14 s15 s16 s17 s18 s19 s20 s21 s22 s23).bind fun t => some (pack t) :=
+  Cx.Proofs.GlueRestMuladd.tail_src_eq _ _ _ _ _ _ _ _ _ _ _ _ _ _ _ _ _ _ _ _ _ _ _ _
+end Scalar32Muladd
+
 namespace Fe32
 open Cx.Impl.Fe32 Cx.Extracted.GlueRest.Fe32
 theorem structs_checked : Fe_struct_src = () := rfl
@@ -297,8 +313,52 @@ theorem maybe_set_src_eq_model (f g : Fe) (c : Impl.CT.Choice) : maybe_set_src f
 /-- `square_repeatdly`: the `for _ in 0..n` loop is the model's recursion, for every `n` (in particular `n = 0` squares nothing: defect k) -/
 theorem square_repeatdly_src_eq_model (f : Fe) (n : Nat) : square_repeatdly_src f n = square_repeatdly f n :=
   fe32_square_repeatdly_src_eq_model f n
+/-- `emul(a, b)`: the exact product of two `i32` never overflows `i64` (the `emul` the limb kernels of Props/C17/KernelTieB32 use) -/
+theorem emul_src_eq_model (a b : Int) (ha : -2 ^ 31 ≤ a ∧ a < 2 ^ 31) (hb : -2 ^ 31 ≤ b ∧ b < 2 ^ 31) : emul_src a b = some (emul a b) :=
+  fe32_emul_src_eq_model a b ha hb
 theorem is_nonzero_src_eq_model (f : Fe) : is_nonzero_src f = is_nonzero f := fe32_is_nonzero_src_eq_model f
 theorem is_negative_src_eq_model (f : Fe) : is_negative_src f = is_negative f := fe32_is_negative_src_eq_model f
 end Fe32
+
+/-! ## (d) scrypt.rs `salsa20_8`, argon2.rs `Block` views / indexing, cryptoutil.rs `xor_array64_mut` -/
+
+namespace Scrypt
+open Cx.Impl.Kdf Cx.Extracted.GlueRest.Scrypt
+/-- one iteration of `for _ in 0..rounds / 2`: the 32 statements EXPANDED from `run_round!` and its invocation as the source has them now
+    are the model's fold over the re-extracted row table (checked by the kernel on symbolic words) -/
+theorem run_round_src_eq_model (i : Nat) (x : Vector UInt32 16) : salsa20_8_src_for1 i x = run_round x := salsa_for1_eq i x
+/-- `salsa20_8(input, output)`: the length test of `read_u32v_le`, the word loading, `rounds / 2` double rounds, the feed-forward written
+    word by word into `output[4i..4i+4]` — for EVERY input (a length ≠ 64 panics) and every output buffer of at least 64 bytes
+    (bytes beyond 64 are kept); no index computation overflows, no slice is out of range -/
+theorem salsa20_8_src_eq_model_on (input output : Bytes) (ho : 64 ≤ output.length) :
+    salsa20_8_src input output = (salsa20_8 input).map (· ++ output.drop 64) := scrypt_salsa20_8_src_eq input output ho
+/-- … on the 64-byte buffer every caller passes (`scrypt_block_mix`): exactly the model's function -/
+theorem salsa20_8_src_eq_model (input output : Bytes) (ho : output.length = 64) : salsa20_8_src input output = salsa20_8 input := by
+  rw [salsa20_8_src_eq_model_on input output (by omega), List.drop_eq_nil_of_le (by omega)]
+  cases salsa20_8 input <;> simp
+end Scrypt
+
+namespace Argon2Block
+open Cx.Impl.Argon2 Cx.Spec.Argon2 Cx.Extracted.GlueRest.Argon2Block Cx.Extracted.GlueRest.CryptoUtil
+theorem structs_checked : Block_struct_src = () := rfl
+/-- THE VIEW LEMMA: the `unsafe` casts `&[u64; 128] -> &[u8; 1024]` of `as_u8` / `as_u8_mut` are defined (sizes agree: `BLOCK_SIZE = 8 *
+    BLOCK_SIZE_U64`, read from the source) and are the little-endian byte view `Block.as_u8` of the model (x86-64 and every little-endian target) -/
+theorem as_u8_src_eq_model (b : Block) : as_u8_src b = some (Block.as_u8 b) := block_as_u8_src_eq_model b
+theorem as_u8_mut_get_src_eq_model (b : Block) : as_u8_mut_get_src b = some (Block.as_u8 b) := block_as_u8_mut_get_src_eq_model b
+/-- storing 1024 bytes through the `&mut` view gives the model's `Block.of_u8` (another length cannot be stored: the view has type `[u8; 1024]`) -/
+theorem as_u8_mut_set_src_eq_model (b : Block) (v : Bytes) (hv : v.length = 1024) : as_u8_mut_set_src b v = some (Block.of_u8 v) :=
+  block_as_u8_mut_set_src_eq_model b v hv
+/-- the two views are inverse to each other: writing back what was read changes nothing -/
+theorem of_u8_as_u8 (b : Block) : Block.of_u8 (Block.as_u8 b) = b := Cx.Proofs.Argon2.blockOfBytes_bytesOfBlock b
+/-- `impl Index<usize> / IndexMut<usize> for Block`: bounds-checked access to the 128 words -/
+theorem index_src_eq_model (b : Block) (i : Nat) : index_src b i = b[i]? := block_index_src_eq_model b i
+theorem index_mut_get_src_eq_model (b : Block) (i : Nat) : index_mut_get_src b i = b[i]? := block_index_mut_get_src_eq_model b i
+theorem index_mut_set_src_eq_model (b : Block) (i : Nat) (v : UInt64) :
+    index_mut_set_src b i v = if h : i < 128 then some (b.set i v h) else none := block_index_mut_set_src_eq_model b i v
+/-- `cryptoutil::xor_array64_mut` (both arrays of the static length N) and its use in `impl BitXorAssign<&Block> for Block` -/
+theorem xor_array64_mut_src_eq_model (a b : List UInt64) : xor_array64_mut_src a b = List.zipWith (· ^^^ ·) a b := rfl
+theorem bitxor_assign_eq_src (a b : Block) : (Block.bitxor_assign a b).toList = xor_array64_mut_src a.toList b.toList :=
+  block_bitxor_assign_eq_src a b
+end Argon2Block
 
 end Cx.Props.C20.GlueTieRest
